@@ -18,6 +18,9 @@ pub use native_tls;
 #[cfg(feature = "rustls")]
 pub use rustls;
 
+#[cfg(compio_verif)]
+pub mod verif;
+
 mod adapter;
 mod maybe;
 mod stream;
